@@ -278,19 +278,31 @@ PROPS['C02']['nx'] = {'directive': 'directive normalisation keeps length, opener
 PROPS['C03']['nx']['directive'] = 'directive normalisation is a fixpoint (bounded stand-in)'
 for _pid in ('C01', 'C02', 'C03', 'C08'):
     PROPS[_pid].setdefault('nx', {})['linecomment'] = 'single-line comment normalisation at the lengths the separator rule needs: documented normal form and fixpoint (bounded stand-in extending KX rewriters)'
-PROPS['C16']['nx'] = {'filefmt': 'write() bytes and length, check mode = text equality and never writes, files mode leaves exactly the written bytes (no stale tail), undecodable file untouched (bounded stand-in)'}
+PROPS['C16']['nx'] = {'filefmt': 'write() bytes and length, check mode = text equality and never writes, files mode leaves exactly the written bytes (no stale tail), undecodable file untouched, a batch gives every file the result it gets alone (thread pools of 1 and 3) (bounded stand-in)'}
 PROPS['C17']['nx'] = {'filefmt': 'bytes -> decode_file -> write round trip for 6 encoding / BOM cases: BOM decides and is preserved, decode inverse of encode, malformed input rejected, unencodable text rejected (bounded stand-in)'}
 PROPS['C02'].setdefault('nx', {})['mlstring'] = 'the documented normalisation of valid multi-line strings (common indentation, line terminators) changes nothing else (bounded stand-in)'
 PROPS['C10'].setdefault('nx', {})['mlstring'] = 'interior lines of re-indented multi-line strings get the same indentation strings (tabs or spaces) as every other line (bounded stand-in)'
 _PIPE = 'end-to-end clause executed natively on the real pipeline (make_formatter(config).format) over an exhaustively enumerated small domain: bounded stand-in for the composition through parser and line-wrapping search, which no contract reaches'
 for _pid in ('C01', 'C02', 'C03', 'C04', 'C05', 'C06', 'C07', 'C08', 'C09', 'C10', 'C11', 'C15'):
     PROPS[_pid].setdefault('nx', {})['pipeline'] = _PIPE
+PROPS['C19'] = {
+    'title': 'Configuration is resolved by a fixed precedence and rejects unknown settings',
+    'level': 'exploration',
+    'vx': {}, 'kx': {},
+    'nx': {'config': 'the real CLI parser, layering and strict deserialisation executed natively with real files: -C over file over default for every assignment of 5 options, invalid settings rejected, nearest ancestor pasfmt.toml, --config-file must exist, files+stdin rejected (bounded stand-in)'},
+    'not_decided': ['NOT A PROOF: bounded stand-in only (the precedence lives in config::ConfigBuilder, serde, clap and the file system)',
+                    'the search from the real working directory; directory depths beyond 4; option values beyond the two per option that are enumerated',
+                    'integer 0/1 given for a boolean option in the file is coerced by the config crate (accepted, not rejected) - left as is',
+                    '"rejected before any file is touched": format() returns on the configuration error before the formatter is built (read, 6 lines)'],
+    'explanation': 'No function-level contract of repository code can carry this property: it is the behaviour of three dependency crates and the file system glued together. '
+                   'The only claim is a bounded stand-in that executes the real resolution natively over an exhaustively enumerated small domain.',
+    'technique': STANDIN,
+}
 for _p in PROPS.values():
     _p.setdefault('level_text', _p.get('explanation', ''))
 
 NOT_APPLICABLE = {
     'C18': 'quantifies over schedules of a rayon pool: Kani has no threads, Verus would need the code rewritten onto its permission types (a model) (DESIGN.md 6)',
-    'C19': 'precedence lives in config::ConfigBuilder, serde(deny_unknown_fields), clap and a directory walk on the real file system: no function-level contract of repository code can express it (DESIGN.md 6)',
 }
 
 # Verus function -> Kani harnesses of the same function (run when only a proof hint of the Verus unit fails)
